@@ -7,14 +7,14 @@ wt="$1"; sd="$2"; out="$sd/confirm.txt"
 # the suite is always built and run in the default configuration)
 DF="$DEMO_FLAGS"; LF="$DEMO_LIBFLAGS"
 cd "$wt" || exit 2
-git checkout -q -- . ; make clean >/dev/null 2>&1
+git checkout -q -- . ; make clean >/dev/null 2>&1; make -C tests clean >/dev/null 2>&1
 {
 echo "seed: $sd"; echo "head: $(git rev-parse --short HEAD)"
 demo=$(ls "$sd"/demo.cpp "$sd"/demo.c 2>/dev/null | head -1)
 cmd=$(grep -m1 -E "clang(\+\+)? " "$demo" | sed -e 's/^[ \t/*#]*//')
 echo "demo compile line (from header): $cmd"
 if ! git apply --check "$sd/patch.diff"; then echo "RESULT patch-does-not-apply"; exit 0; fi
-git apply "$sd/patch.diff"
+git apply "$sd/patch.diff"; make -C tests clean >/dev/null 2>&1
 make -j8 >/dev/null 2>&1 && make -C tests -j8 >/dev/null 2>&1 || { echo "RESULT build-failed-with-patch"; git checkout -q -- .; exit 0; }
 ./tests/test > /tmp/$$.t 2>&1; trc=$?
 echo "suite with patch: rc=$trc PASS=$(grep -c PASS /tmp/$$.t) FAIL=$(grep -ci fail /tmp/$$.t)"
